@@ -724,8 +724,11 @@ func checkC13(env *engine.Env, ci any) engine.Outcome {
 		out.Transitions++
 		out.Key = fmt.Sprintf("cli:%s:%s:exit=%v", f, c.First, rerr != nil)
 		if rerr != nil {
-			// refusing (no packager can be inferred, unknown packager name) is fine
-			_ = o
+			// refusing (no packager can be inferred, unknown packager name) is fine; with the packager named by -p
+			// nothing stands in the way: the entries addressed to other packagers are none of this run's business
+			if c.First == "-p" {
+				viol("merge:cli-fails:"+f, "nfpm %v failed: %v\n%s\nconfiguration:\n%s", args, rerr, o, text)
+			}
 			return out
 		}
 		b, err := os.ReadFile(filepath.Join(work, target))
